@@ -484,3 +484,404 @@ Proof.
   intros w Hin. apply in_map_iff in Hin. destruct Hin as (w0 & <- & Hin).
   simpl. apply (Hall w0 Hin).
 Qed.
+
+(* ====================================================================== *)
+(* 6. PushSimpleLoops.                                                    *)
+
+Lemma split_at_some : forall x l a b,
+  split_at x l = Some (a, b) -> l = a ++ x :: b.
+Proof.
+  induction l as [|y t IH]; intros a b H; simpl in H; [discriminate|].
+  destruct (Nat.eqb_spec x y) as [->|Hn].
+  - injection H as <- <-. reflexivity.
+  - destruct (split_at x t) as [[a0 b0]|]; [|discriminate].
+    injection H as <- <-. simpl. f_equal. apply IH. reflexivity.
+Qed.
+
+Lemma split_at_none : forall x l, split_at x l = None -> ~ In x l.
+Proof.
+  induction l as [|y t IH]; intros H; simpl in *; [tauto|].
+  destruct (Nat.eqb_spec x y) as [->|Hn]; [discriminate|].
+  destruct (split_at x t) as [[a0 b0]|]; [discriminate|].
+  intros [Hy|Hin]; [congruence|]. apply IH; auto.
+Qed.
+
+Lemma NoDup_snoc : forall (x : nat) l, NoDup l -> ~ In x l -> NoDup (l ++ [x]).
+Proof.
+  intros x l Hnd Hn. apply (Permutation_NoDup (Permutation_cons_append l x)).
+  constructor; assumption.
+Qed.
+
+Lemma NoDup_app_r : forall (l l' : list nat), NoDup (l ++ l') -> NoDup l'.
+Proof.
+  induction l as [|x t IH]; intros l' H; simpl in H; [exact H|].
+  inversion H; subst. apply IH. assumption.
+Qed.
+
+Lemma first_repeat_some : forall l pre a piece rest,
+  first_repeat pre l = Some (a, piece, rest) -> NoDup pre ->
+  exists x b t, piece = x :: b /\ rest = x :: t /\
+                pre ++ l = a ++ (x :: b) ++ (x :: t) /\ NoDup piece.
+Proof.
+  induction l as [|x t IH]; intros pre a piece rest H Hnd; simpl in H;
+    [discriminate|].
+  destruct (split_at x pre) as [[a0 b0]|] eqn:Hs.
+  - injection H as <- <- <-. apply split_at_some in Hs. subst pre.
+    exists x, b0, t. repeat split; auto.
+    + rewrite <- app_assoc. reflexivity.
+    + apply NoDup_app_r in Hnd. exact Hnd.
+  - apply split_at_none in Hs.
+    destruct (IH _ _ _ _ H (NoDup_snoc x pre Hnd Hs)) as (y & b & t' & H1 & H2 & H3 & H4).
+    exists y, b, t'. repeat split; auto.
+    rewrite <- H3, <- app_assoc. reflexivity.
+Qed.
+
+Lemma first_repeat_none : forall l pre,
+  first_repeat pre l = None -> NoDup pre -> NoDup (pre ++ l).
+Proof.
+  induction l as [|x t IH]; intros pre H Hnd; simpl in H.
+  - rewrite app_nil_r. exact Hnd.
+  - destruct (split_at x pre) as [[a0 b0]|] eqn:Hs; [discriminate|].
+    apply split_at_none in Hs.
+    specialize (IH _ H (NoDup_snoc x pre Hnd Hs)).
+    rewrite <- app_assoc in IH. exact IH.
+Qed.
+
+Lemma path_pairs_app : forall l1 l2 e,
+  path_pairs (l1 ++ l2) e = path_pairs l1 (hd e l2) ++ path_pairs l2 e.
+Proof.
+  induction l1 as [|x t IH]; intros l2 e; simpl; [reflexivity|].
+  rewrite IH. f_equal. destruct t; reflexivity.
+Qed.
+
+Lemma cyc_pairs_app_cons : forall a x r,
+  cyc_pairs (a ++ x :: r) = path_pairs a x ++ path_pairs (x :: r) (hd x a).
+Proof.
+  intros a x r. destruct a as [|y a']; [reflexivity|].
+  unfold cyc_pairs. simpl app.
+  apply (path_pairs_app (y :: a') (x :: r) y).
+Qed.
+
+Lemma cyc_pairs_cut : forall a x b t,
+  Permutation (cyc_pairs (x :: b) ++ cyc_pairs (a ++ x :: t))
+              (cyc_pairs (a ++ (x :: b) ++ (x :: t))).
+Proof.
+  intros a x b t.
+  change (a ++ (x :: b) ++ x :: t) with (a ++ x :: (b ++ x :: t)).
+  rewrite !cyc_pairs_app_cons.
+  change (x :: b ++ x :: t) with ((x :: b) ++ (x :: t)).
+  rewrite path_pairs_app. simpl hd.
+  change (cyc_pairs (x :: b)) with (path_pairs (x :: b) x).
+  apply Permutation_app_swap_app.
+Qed.
+
+Lemma push_all_ok : forall fuel w,
+  length w < fuel ->
+  exists ps,
+    push_simple_loops_all fuel w = Some ps /\
+    Forall (@NoDup nat) ps /\
+    Permutation (concat ps) w /\
+    Permutation (concat (map cyc_pairs ps)) (cyc_pairs w).
+Proof.
+  induction fuel as [|f IH]; intros w Hlen; [lia|].
+  simpl. destruct (first_repeat [] w) as [[[a piece] rest]|] eqn:Hf.
+  - destruct (first_repeat_some _ _ _ _ _ Hf (NoDup_nil nat))
+      as (x & b & t & -> & -> & Hw & Hnd).
+    simpl in Hw. subst w.
+    destruct (IH (a ++ x :: t)) as (ps & Hps & Hall & HP1 & HP2).
+    { rewrite !app_length in Hlen. simpl in Hlen. rewrite app_length in *.
+      simpl in *. lia. }
+    rewrite Hps. exists ((x :: b) :: ps).
+    split; [reflexivity|]. split; [constructor; assumption|]. split.
+    + apply perm_trans with ((x :: b) ++ (a ++ x :: t)).
+      * apply (Permutation_app_head (x :: b)). exact HP1.
+      * apply (Permutation_app_swap_app (x :: b) a (x :: t)).
+    + apply perm_trans with (cyc_pairs (x :: b) ++ cyc_pairs (a ++ x :: t)).
+      * apply (Permutation_app_head (cyc_pairs (x :: b))). exact HP2.
+      * apply cyc_pairs_cut.
+  - exists [w]. split; [reflexivity|].
+    apply first_repeat_none in Hf; [|constructor]. simpl in Hf.
+    split; [constructor; [exact Hf|constructor]|].
+    simpl. rewrite !app_nil_r. split; apply Permutation_refl.
+Qed.
+
+Lemma cyc_pairs_1 : forall a, cyc_pairs [a] = [(a, a)].
+Proof. reflexivity. Qed.
+
+Lemma cyc_pairs_2 : forall a b, cyc_pairs [a; b] = [(a, b); (b, a)].
+Proof. reflexivity. Qed.
+
+(* counting directed pairs *)
+Lemma count_pair_perm : forall p l l',
+  Permutation l l' -> count_pair p l = count_pair p l'.
+Proof.
+  unfold count_pair. induction 1; simpl; auto.
+  - destruct (edge_eqb p x); simpl; congruence.
+  - destruct (edge_eqb p x), (edge_eqb p y); reflexivity.
+  - congruence.
+Qed.
+
+Lemma count_pair_app : forall p l l',
+  count_pair p (l ++ l') = count_pair p l + count_pair p l'.
+Proof.
+  unfold count_pair. intros. rewrite filter_app, app_length. reflexivity.
+Qed.
+
+Lemma coefc_app : forall l l' a b,
+  coefc (l ++ l') a b = (coefc l a b + coefc l' a b)%Z.
+Proof. unfold coefc. intros. rewrite !count_pair_app. lia. Qed.
+
+Lemma coefc_perm : forall l l' a b,
+  Permutation l l' -> coefc l a b = coefc l' a b.
+Proof.
+  unfold coefc. intros l l' a b H.
+  rewrite (count_pair_perm _ _ _ H), (count_pair_perm (b, a) _ _ H). reflexivity.
+Qed.
+
+(* a piece with fewer than 3 vertices is zero in the chain group *)
+Lemma coefc_degenerate : forall l a b,
+  nondegenerate l = false -> coefc (cyc_pairs l) a b = 0%Z.
+Proof.
+  intros l a b H. unfold nondegenerate in H.
+  destruct l as [|x [|y [|z t]]]; simpl in H; try discriminate.
+  - reflexivity.
+  - unfold coefc, count_pair, edge_eqb. simpl.
+    rewrite (andb_comm (b =? x)). lia.
+  - unfold coefc, count_pair, edge_eqb. simpl.
+    destruct (a =? x), (b =? y), (a =? y), (b =? x); reflexivity.
+Qed.
+
+Lemma coefc_filter_nondegenerate : forall ps a b,
+  coefc (concat (map cyc_pairs (filter nondegenerate ps))) a b =
+  coefc (concat (map cyc_pairs ps)) a b.
+Proof.
+  induction ps as [|l t IH]; intros a b; simpl; [reflexivity|].
+  destruct (nondegenerate l) eqn:Hl; simpl; rewrite !coefc_app, IH.
+  - reflexivity.
+  - rewrite (coefc_degenerate l a b Hl). lia.
+Qed.
+
+(* PushSimpleLoops terminates with fuel S (length w); [all] is the list of
+   all cut pieces (the remainder last), of which the C++ keeps those with at
+   least 3 vertices.
+   - every kept loop is duplicate-free (a simple vertex cycle) with >= 3
+     vertices;
+   - the pieces partition the vertex occurrences of w;
+   - the cyclic consecutive pairs of ALL pieces are a permutation of those
+     of w;
+   - a dropped piece is [], [a] (pair a->a) or [a;b] (pairs a->b, b->a); so
+   - the signed chain of the KEPT loops equals the signed chain of w. *)
+Theorem push_simple_loops_sound : forall w,
+  exists all,
+    push_simple_loops_all (S (length w)) w = Some all /\
+    push_simple_loops (S (length w)) w = Some (filter nondegenerate all) /\
+    push_simple_loops_dropped (S (length w)) w =
+      Some (filter (fun l => negb (nondegenerate l)) all) /\
+    (forall l, In l all -> NoDup l) /\
+    (forall l, In l (filter nondegenerate all) -> NoDup l /\ 3 <= length l) /\
+    Permutation (concat all) w /\
+    Permutation (concat (map cyc_pairs all)) (cyc_pairs w) /\
+    (forall l, In l (filter (fun l => negb (nondegenerate l)) all) ->
+       l = [] \/ (exists a, l = [a] /\ cyc_pairs l = [(a, a)]) \/
+       (exists a b, l = [a; b] /\ cyc_pairs l = [(a, b); (b, a)])) /\
+    (forall a b,
+       coefc (concat (map cyc_pairs (filter nondegenerate all))) a b =
+       coefc (cyc_pairs w) a b).
+Proof.
+  intros w.
+  destruct (push_all_ok (S (length w)) w (Nat.lt_succ_diag_r _))
+    as (ps & Hps & Hnd & HP1 & HP2).
+  rewrite Forall_forall in Hnd.
+  exists ps. unfold push_simple_loops, push_simple_loops_dropped. rewrite Hps.
+  split; [reflexivity|]. split; [reflexivity|]. split; [reflexivity|].
+  split; [exact Hnd|]. split.
+  { intros l Hin. apply filter_In in Hin. destruct Hin as [Hin Hl].
+    split; [apply Hnd; exact Hin|]. apply Nat.leb_le. exact Hl. }
+  split; [exact HP1|]. split; [exact HP2|]. split.
+  { intros l Hin. apply filter_In in Hin. destruct Hin as [_ Hl].
+    apply negb_true_iff in Hl. unfold nondegenerate in Hl.
+    destruct l as [|x [|y [|z t]]]; simpl in Hl; try discriminate.
+    - left. reflexivity.
+    - right. left. exists x. split; reflexivity.
+    - right. right. exists x, y. split; reflexivity. }
+  intros a b. rewrite coefc_filter_nondegenerate. apply coefc_perm. exact HP2.
+Qed.
+
+(* ====================================================================== *)
+(* 7. End to end: walks + PushSimpleLoops.                                *)
+
+Lemma concat_map_app : forall (A B : Type) (f : A -> list B) l1 l2,
+  concat (map f (l1 ++ l2)) = concat (map f l1) ++ concat (map f l2).
+Proof. intros. rewrite map_app, concat_app. reflexivity. Qed.
+
+Lemma loops_of_walks_ok : forall ws,
+  (forall w, In w ws -> walk_closed w = true) ->
+  exists ls,
+    loops_of_walks ws = Some ls /\
+    (forall l, In l ls -> NoDup l /\ 3 <= length l) /\
+    (forall a b,
+       coefc (concat (map cyc_pairs ls)) a b =
+       coefc (concat (map (fun w => cyc_pairs (walk_verts w)) ws)) a b).
+Proof.
+  induction ws as [|w rest IH]; intros Hcl.
+  - exists []. split; [reflexivity|]. split; [intros l []|].
+    intros a b. reflexivity.
+  - destruct IH as (ls' & Hls' & Hnd' & Hco').
+    { intros w' Hin. apply Hcl. right. exact Hin. }
+    cbn [loops_of_walks]. rewrite (Hcl w (or_introl eq_refl)). cbn [andb].
+    destruct (3 <=? length (walk_verts w)) eqn:Hlen.
+    + destruct (push_simple_loops_sound (walk_verts w))
+        as (all & _ & Hp & _ & _ & Hkept & _ & _ & _ & Hco).
+      rewrite Hp, Hls'. eexists. split; [reflexivity|]. split.
+      * intros l Hin. apply in_app_or in Hin. destruct Hin as [Hin|Hin];
+          [apply Hkept|apply Hnd']; exact Hin.
+      * intros a b. rewrite concat_map_app, coefc_app. simpl map. simpl concat.
+        rewrite coefc_app, Hco, Hco'. reflexivity.
+    + rewrite Hls'. exists ls'. split; [reflexivity|]. split; [exact Hnd'|].
+      intros a b. simpl map. simpl concat. rewrite coefc_app, Hco'.
+      rewrite (coefc_degenerate (walk_verts w) a b Hlen). reflexivity.
+Qed.
+
+(* For a balanced graph and any admissible oracle, OutEdgesToPolygons (on
+   vertex ids) returns simple loops (no repeated vertex, >= 3 vertices) whose
+   signed chain equals the signed chain of the input edges: for every ordered
+   pair (a,b), #(a->b) - #(b->a) over the cyclic consecutive pairs of the
+   loops equals #(a->b) - #(b->a) over the edges. *)
+Theorem out_edges_to_loops_sound :
+  forall pick, pick_ok pick ->
+  forall edges, balanced edges ->
+  exists ls,
+    out_edges_to_loops pick edges = Some ls /\
+    (forall l, In l ls -> NoDup l /\ 3 <= length l) /\
+    (forall a b, coefc (concat (map cyc_pairs ls)) a b = coefc edges a b).
+Proof.
+  intros pick Hpick edges Hbal.
+  destruct (balanced_walks_close pick Hpick edges Hbal)
+    as (ws & Hw & Hall & _ & HP).
+  destruct (loops_of_walks_ok ws) as (ls & Hls & Hnd & Hco).
+  { intros w Hin. apply (Hall w Hin). }
+  unfold out_edges_to_loops. rewrite Hw. exists ls.
+  split; [exact Hls|]. split; [exact Hnd|].
+  intros a b. rewrite Hco. apply coefc_perm. exact HP.
+Qed.
+
+(* ====================================================================== *)
+(* 8. The concrete CCW oracle returns one of its candidates.              *)
+
+Lemma ccw_scan_some : forall verts edges vp ref l n bd,
+  exists n' bd',
+    ccw_scan verts edges vp ref (Some (n, bd)) l = Some (n', bd') /\
+    (n' = n \/ In n' l).
+Proof.
+  induction l as [|e t IH]; intros n bd; simpl.
+  - exists n, bd. split; [reflexivity|left; reflexivity].
+  - destruct (ccw_turn_less ref _ e bd n).
+    + destruct (IH e (zsub (verts (snd (edge_of edges e))) vp))
+        as (n' & bd' & H1 & H2).
+      exists n', bd'. split; [exact H1|]. right. destruct H2; [left; auto|right; auto].
+    + destruct (IH n bd) as (n' & bd' & H1 & H2).
+      exists n', bd'. split; [exact H1|]. destruct H2; [left; auto|right; right; auto].
+Qed.
+
+Lemma pick_ccw_in : forall verts edges cur candidates,
+  candidates <> [] -> In (pick_ccw verts edges cur candidates) candidates.
+Proof.
+  intros verts edges cur l Hl. destruct l as [|e t]; [contradiction|].
+  unfold pick_ccw. simpl ccw_scan.
+  match goal with |- context [ccw_scan ?v ?ed ?vp ?rf (Some (e, ?d)) t] =>
+    destruct (ccw_scan_some v ed vp rf t e d) as (n' & bd' & H1 & H2) end.
+  rewrite H1. destruct H2 as [->|H2]; [left; reflexivity|right; exact H2].
+Qed.
+
+Lemma pick_ccw_ok : forall verts edges, pick_ok (pick_ccw verts edges).
+Proof. intros verts edges cur l. apply pick_ccw_in. Qed.
+
+(* ====================================================================== *)
+(* 9. Examples.                                                           *)
+
+Definition pick_hd (cur : nat) (l : list nat) : nat := hd 0 l.
+Definition pick_last (cur : nat) (l : list nat) : nat := last l 0.
+
+(* two triangles 1-2-0 and 0-3-4 sharing vertex 0, first edge not at 0 *)
+Definition fig8 : list edge := [(1,2);(2,0);(0,1);(0,3);(3,4);(4,0)].
+Definition fig8_pts : list (Z * Z) :=
+  [(0,0); (-2,1); (-2,-1); (2,-1); (2,1)]%Z.
+
+Lemma pick_hd_ok : pick_ok pick_hd.
+Proof. intros cur l H. destruct l; [contradiction|left; reflexivity]. Qed.
+
+Lemma pick_last_ok : pick_ok pick_last.
+Proof.
+  intros cur l H. unfold pick_last.
+  destruct (exists_last H) as (l' & a & ->). rewrite last_last.
+  apply in_or_app. right. left. reflexivity.
+Qed.
+
+(* oracle "first candidate": the walk started at vertex 1 closes as soon as it
+   returns to 1, giving two triangular walks (verts, edge ids, closed) *)
+Example fig8_walks_hd :
+  walks_full pick_hd fig8 =
+  Some [([1; 2; 0], [0; 1; 2], true); ([0; 3; 4], [3; 4; 5], true)].
+Proof. vm_compute. reflexivity. Qed.
+
+(* oracle "last candidate": one figure-eight walk through vertex 0 twice *)
+Example fig8_walks_last :
+  walks_full pick_last fig8 =
+  Some [([1; 2; 0; 3; 4; 0], [0; 1; 3; 4; 5; 2], true)].
+Proof. vm_compute. reflexivity. Qed.
+
+Example fig8_loops_hd :
+  out_edges_to_loops pick_hd fig8 = Some [[1; 2; 0]; [0; 3; 4]].
+Proof. vm_compute. reflexivity. Qed.
+
+(* PushSimpleLoops cuts the figure eight at the repeated vertex 0 *)
+Example fig8_loops_last :
+  out_edges_to_loops pick_last fig8 = Some [[0; 3; 4]; [1; 2; 0]].
+Proof. vm_compute. reflexivity. Qed.
+
+Example fig8_push_simple_loops :
+  push_simple_loops 7 [1; 2; 0; 3; 4; 0] = Some [[0; 3; 4]; [1; 2; 0]].
+Proof. vm_compute. reflexivity. Qed.
+
+(* the integer CCW oracle: arriving at (0,0) from (-2,-1) the smallest CCW
+   turn is towards (2,-1), so the walk is the figure eight *)
+Example fig8_walks_z :
+  walks_z fig8_pts fig8 = Some [([1; 2; 0; 3; 4; 0], true)].
+Proof. vm_compute. reflexivity. Qed.
+
+Example fig8_polygons_z :
+  out_edges_to_polygons_z fig8_pts fig8 =
+  Some [[(0, 0); (2, -1); (2, 1)]; [(-2, 1); (-2, -1); (0, 0)]]%Z.
+Proof. vm_compute. reflexivity. Qed.
+
+(* an UNBALANCED graph: the walk 0->1->2 gets stuck at 2, is not closed, and
+   is dropped: no loop is emitted (silently in a release build) *)
+Example unbalanced_walk_not_closed :
+  walks_full pick_hd [(0, 1); (1, 2)] = Some [([0; 1], [0; 1], false)] /\
+  dropped_walks pick_hd [(0, 1); (1, 2)] = Some [[0; 1]] /\
+  out_edges_to_loops pick_hd [(0, 1); (1, 2)] = Some [].
+Proof. vm_compute. repeat split; reflexivity. Qed.
+
+(* a closed triangle plus a dangling edge: the triangle is kept, the dangling
+   edge (3,4) is a dropped non-closed walk *)
+Example unbalanced_dangling_edge :
+  dropped_walks pick_hd [(0, 1); (1, 2); (2, 0); (3, 4)] = Some [[3]] /\
+  out_edges_to_loops pick_hd [(0, 1); (1, 2); (2, 0); (3, 4)] = Some [[0; 1; 2]].
+Proof. vm_compute. repeat split; reflexivity. Qed.
+
+(* degenerate pieces: the spike 0-1-2-1-0 is cut into [1;2] and [0;1], both
+   dropped (each contributes a->b and b->a); only [0;3;4] is kept *)
+Example push_simple_loops_spike :
+  push_simple_loops_all 8 [0; 1; 2; 1; 0; 3; 4] =
+    Some [[1; 2]; [0; 1]; [0; 3; 4]] /\
+  push_simple_loops 8 [0; 1; 2; 1; 0; 3; 4] = Some [[0; 3; 4]] /\
+  push_simple_loops_dropped 8 [0; 1; 2; 1; 0; 3; 4] = Some [[1; 2]; [0; 1]].
+Proof. vm_compute. repeat split; reflexivity. Qed.
+
+(* ====================================================================== *)
+Print Assumptions balanced_walks_close.
+Print Assumptions balanced_no_dropped_walk.
+Print Assumptions balanced_walks_of.
+Print Assumptions push_simple_loops_sound.
+Print Assumptions out_edges_to_loops_sound.
+Print Assumptions pick_ccw_in.
